@@ -7,7 +7,7 @@
    window_contains are the independent specification.  Arrays are lists of rows of ANY element type; shapes and
    indices are unbounded integers; coordinates are real numbers. *)
 From Coq Require Import ZArith List Bool Reals.
-From PAV Require Import Base.Res Base.NumOps Model.C14 Proofs.C14 Proofs.C14b Proofs.C14c Proofs.C14d.
+From PAV Require Import Base.Res Base.NumOps Model.C14 Proofs.C14 Proofs.C14b Proofs.C14c Proofs.C14d Proofs.C14e.
 Import ListNotations.
 Local Open Scope Z_scope.
 
@@ -146,6 +146,13 @@ Theorem C14_auto_padding_keeps_triples :
                              snd d' = resize_spec true m (H + (fst k - 1)) (W + (snd k - 1))).
 Proof. exact @auto_padding_keeps_triples. Qed.
 
+(* and on the resulting mask the blurring footprint of every unmasked pixel lies inside the frame (what the padding is for) *)
+Theorem C14_apply_mask_footprint_inside :
+  forall (A : Type) (zero : A) (data noise : list (list A)) (m : list (list bool)) H W k,
+  rectb H W data = true -> rectb H W noise = true -> rectb H W m = true -> 0 < H -> odd_kernel k = true ->
+  exists d' n', imaging_apply_mask zero data noise m (Some k) = Ok (d', n') /\ footprint_inside (snd d') k = true.
+Proof. exact @apply_mask_footprint_inside. Qed.
+
 (* ---------------------------------------------------------------- 4. zoom *)
 Theorem C14_extract_is_window : forall (A : Type) (zero : A) (a : list (list A)) H W y0 y1 x0 x1,
   rectb H W a = true -> 0 < H -> y0 <= y1 -> x0 <= x1 ->
@@ -248,6 +255,7 @@ Print Assumptions C14_parity_preserving_resize_keeps_coordinates.
 Print Assumptions C14_parity_preserving_mask_resize_keeps_grid.
 Print Assumptions C14_parity_hypothesis_needed.
 Print Assumptions C14_auto_padding_keeps_triples.
+Print Assumptions C14_apply_mask_footprint_inside.
 Print Assumptions C14_extract_is_window.
 Print Assumptions C14_zoom_region_contains_unmasked.
 Print Assumptions C14_zoom_contains_unmasked.
